@@ -9,7 +9,7 @@ from vlib.runner import Violation
 from vlib.spec import build, spec_scope
 
 ID = "C01"
-BUDGET = {"quick": 1600, "thorough": 40000}
+BUDGET = {"quick": 1600, "thorough": 160000}
 RULE = ("Generated: smooth&decomposable layer DAGs built by construction (G-sd: every input layer type, "
         "Hadamard/Kronecker products of arity 2..3, arity-1 / dense n-ary / mixing sums, shared sub-circuits, "
         "1..3 outputs incl. inner layers, variable ids renumbered into 0..24) and, for a quarter of the cases, circuits "
